@@ -19,7 +19,7 @@ CHECKS = {
          "(error-predicate vector, write-back, full contents) is judged by TLC against the specification; concurrent "
          "real-thread histories are accepted only if TLC finds linearization points (TraceStoreLin). "
          "Histories that start on a restarted persistent-backed state whose first access is made by two clients at once (one parked inside the backing store's Load) are driven and judged too (TracePersist raceread). "
-         "The access-rule wrapper state.Filter has its own specification (Filter.tla): the rule is consulted exactly once per call with the access the call makes, denied calls never reach the wrapped state, allowed calls are transparent. Linearization-point traces: build-tag guarded hooks inside the in-memory collection (one line per critical section, written under the collection mutex) are switched on while the harness drivers AND the repository's own test suites run; TLC judges every line against the store / committed-log / watch vocabulary (TraceInmem.tla).",
+         "The access-rule wrapper state.Filter has its own specification (Filter.tla): the rule is consulted exactly once per call with the access the call makes, denied calls never reach the wrapped state, allowed calls are transparent. Linearization-point traces: build-tag guarded hooks inside the in-memory collection (one line per critical section, written under the collection mutex) are switched on while the harness drivers AND the repository's own test suites run; TLC judges every line against the store / committed-log / watch vocabulary (TraceInmem.tla). The same sequential store is shown safe for unbounded versions, clocks and histories by an Apalache inductive-invariant argument (ApaStore.tla); a fault-injecting backing-store stack is part of the sequential replay.",
     note="Trusted: TLC, the Go projection of resources/errors (harness/vh). Real-thread histories sample schedules, "
          "they do not enumerate them; bounded domains (2 ids x 2 namespaces x 2 types, 3 owners, 2 finalizers).",
     technique="TLA+ sequential spec + TLC model checking; model-based replay and TLC trace validation (incl. linearizability acceptor)",
@@ -54,7 +54,7 @@ CHECKS = {
          "readiness, honest context cancellation, NoMissedWakeup, and TeardownAndDestroy completion under fairness. "
          "TLC-simulated schedules are replayed on the real helpers through a gating CoreState proxy inside a synctest "
          "bubble (one underlying call / one delivery per scheduling decision); the recorded trace is judged by TLC "
-         "against the property-level spec TraceHelpers.tla.",
+         "against the property-level spec TraceHelpers.tla. Watchers blocked across a re-creation of the resource (versions restart) are part of the model-checked and replayed programs; TeardownAndDestroy may surface the pending-finalizers conflict only after it saw the finalizers empty after its own teardown took effect.",
     note="Trusted: TLC, synctest, the gating proxy. Schedules replayed on the code are a TLC-simulated sample (quick 300, "
          "thorough 6000) of the interleavings that the model checks exhaustively; one resource, 3 actors.",
     technique="TLA+ helper step-machine model + TLC (safety and liveness); schedule replay through a gating proxy; TLC trace validation",
@@ -67,7 +67,7 @@ CHECKS = {
          "the judge TraceHelpers.tla checks on every real trace: written value = mutation applied to the then-current "
          "value, applied exactly once, returned object = written object, errors had no effect, owner/phase conflicts never "
          "turned into success, no call spins forever. "
-         "The token mutators also count their applications (not idempotent), so a mutation applied twice on the way to one successful write is rejected (applied-twice); a dedicated program menu (create / destroy racing Modify's create path) with an alternating scheduler bias is part of every run, and a directed schedule reproduces the open ABA finding.",
+         "The token mutators also count their applications (not idempotent), so a mutation applied twice on the way to one successful write is rejected (applied-twice); a dedicated program menu (create / destroy racing Modify's create path) with an alternating scheduler bias is part of every run, and a directed schedule reproduces the open ABA finding. Idempotent mutators racing a teardown are part of the programs (a success must have found the expected phase).",
     note="Trusted: as C03. Known finding C04/aba (stale update over a re-created incarnation with coinciding version) is "
          "listed in known_findings.json and modelled as the named deviation RecreateSameVersionABA.",
     technique="TLA+ helper step-machine model + TLC; schedule replay through a gating proxy; TLC trace validation",
@@ -95,7 +95,7 @@ CHECKS = {
          "(registration before and after start, both flavours) run on the real runtime in a synctest bubble; after every call "
          "the outcome, the exported graph and, for writes to every probe key in three phases, the set of notified probe "
          "controllers are recorded and judged by TLC (TraceDepDB.tla: must-notify subset-of woken subset-of may-notify). "
-         "A crash of the delivery goroutine is detected as a dead driver process and attributed to the running behaviour.",
+         "A crash of the delivery goroutine is detected as a dead driver process and attributed to the running behaviour. Updates that change nothing but the kind of existing inputs are part of the call sequences.",
     note="Trusted: TLC, synctest quiescence for 'who woke up'. One namespace; UpdateInputs only for running reduced-runtime "
          "controllers (API).",
     technique="TLA+ dependency-database model + TLC (incl. refinement of the call sequences); model-based replay on the real runtime; TLC trace validation",
@@ -111,7 +111,7 @@ CHECKS = {
          "runtime adapters of a probe Controller / QController, with cached and uncached kinds, and the recorded outcome class "
          "and resulting value are judged by TLC (TraceAccess.tla). "
          "Output tracking (StartTrackingOutputs / CleanupOutputs) is modelled in OutTrack.tla (exact victims, foreign resources untouched, failed cleanup keeps the tracker, panics on misuse, restart discards the tracker), checked exhaustively, and random walks of it are replayed through a probe controller with every command judged by TraceOutTrack. "
-         "The change rate limit (WithChangeRateLimit) is a token bucket (RateLimit.tla, window bound checked by TLC); call sequences with idle gaps are issued in virtual time and the bucket is replayed per call: every mutating call, allowed or denied, takes one token and waits exactly as long as the policy says, reads take none. UpdateInputs must not alias the caller's slice.",
+         "The change rate limit (WithChangeRateLimit) is a token bucket (RateLimit.tla, window bound checked by TLC); call sequences with idle gaps are issued in virtual time and the bucket is replayed per call: every mutating call, allowed or denied, takes one token and waits exactly as long as the policy says, reads take none. UpdateInputs must not alias the caller's slice. Every declaration's rows run forwards and backwards through one controller handle, and chained through UpdateInputs to the next declaration: what a call may do depends on the current declaration only.",
     note="Trusted: TLC, the error classification of harness/vh (an access denial is an unclassifiable error). One namespace; "
          "write rate limiting not exercised.",
     technique="TLA+ access matrix + TLC enumeration; exhaustive matrix replay through the real adapters; TLC trace validation",
@@ -138,7 +138,7 @@ CHECKS = {
          "current contents, contexts are cancelled iff the resource is/was torn down, removed or absent (TraceCache). "
          "Black box: runtime schedules with cached kinds; cached reads after every step must be version-monotone per "
          "incarnation, controllers reading through the cache must not lose wake-ups, and cached = uncached at the quiet point. "
-         "A filtered List running concurrently with one cache mutation (a hook in the cached resources' Metadata() lets the mutation land in the middle of the scan) must return the contents at one instant.",
+         "A filtered List running concurrently with one cache mutation (a hook in the cached resources' Metadata() lets the mutation land in the middle of the scan) must return the contents at one instant. Teardown-bound contexts handed out by the runtime for cached resources are tracked (cancelled exactly when the resource is torn down, removed or absent), including removal and re-creation within one batch; pipeline hook traces of the runtimes are judged by TracePipe.tla.",
     note="Trusted: as C05. Filtered cached lists are exercised by C14's selector table at the cache site.",
     technique="TLA+ cache model + pipeline model, TLC; white-box and black-box replay; TLC trace validation",
     ref="5.15"),
@@ -151,7 +151,7 @@ CHECKS = {
          "returned; restart sequences (error / panic / reset) of a controller, a run hook and a task judged against the "
          "back-off envelope with a fresh reconcile after every restart (TraceBackoff). "
          "Failing queue items of a QController (error, panic, requeue with and without interval, including RequeueError(err, 0)) are driven and judged against the back-off envelope with the nothing-lost rule (stage shared with C09 b). "
-         "pkg/task is specified in TaskRunner.tla (registry / live goroutines under StartTask, StopTask, Reconcile, Stop, bodies finishing, failing, panicking) and random walks are replayed on a real task.Runner with the set of executing task instances judged after every command; the output-tracking stage (panic between StartTrackingOutputs and CleanupOutputs) is shared with C08.",
+         "pkg/task is specified in TaskRunner.tla (registry / live goroutines under StartTask, StopTask, Reconcile, Stop, bodies finishing, failing, panicking) and random walks are replayed on a real task.Runner with the set of executing task instances judged after every command; the output-tracking stage (panic between StartTrackingOutputs and CleanupOutputs) is shared with C08. Failures of controllers, queue items and run hooks alternate between plain errors and errors that wrap context.DeadlineExceeded / context.Canceled while the runtime is alive; long streaks of consecutive failures are part of the restart stage.",
     note="Trusted: as C05; goroutine leak measured by process goroutine count inside the bubble.",
     technique="TLA+ pipeline/back-off models + TLC; fault-schedule replay in virtual time; TLC trace validation",
     ref="5.16"),
@@ -163,7 +163,7 @@ CHECKS = {
          "running inputs, no orphan except held by a foreign finalizer, torn-down inputs released`. The real transform / "
          "qtransform controllers (6 option configurations) run on the real runtime in a synctest bubble while TLC-generated "
          "external histories are executed, optionally with the transform held in flight or failing transiently; the quiet "
-         "snapshot is judged by TLC (TraceLifecycle.tla, JUDGE=C06).",
+         "snapshot is judged by TLC (TraceLifecycle.tla, JUDGE=C06). Skip mode (the transform asks to skip every reconcile from some point on) and configurations with destroy.Controller for the input type are driven as well.",
     note="Trusted: TLC, synctest quiescence, C05 (notification fairness). Known finding (ignore-teardown options) listed in "
          "known_findings.json and reproduced by the model config MC_LifecycleQT_ignore.",
     technique="TLA+ controller lifecycle models + TLC; history replay on the real controllers; TLC trace validation",
@@ -174,7 +174,7 @@ CHECKS = {
          "everybody and the store: after EVERY write, an output owned by the controller exists only while its input exists and "
          "carries the controller's finalizer, and an output is destroyed only from tearing-down phase with no finalizers "
          "(TraceLifecycle.tla, JUDGE=C07); the models check FinBeforeOut as an invariant. "
-         "An eighth configuration combines two cleanup handlers (cleanup.Combine) over two groups of dependents, a ninth uses WithIgnoreTeardownWhile.",
+         "An eighth configuration combines two cleanup handlers (cleanup.Combine) over two groups of dependents, a ninth uses WithIgnoreTeardownWhile. Configurations with destroy.Controller for the input type and skip mode are driven as well.",
     note="Trusted: the recording proxy serialises writes around the store call (commit order). Cleanup controllers "
          "(cleanup.NewController + RemoveOutputs) are modelled (LifecycleCL.tla) and driven as configuration CL; the controller's own "
          "writes can be parked and stepped so external operations land between any two of them. Known finding for the ignore-teardown options is listed.",
@@ -192,7 +192,7 @@ CHECKS = {
          "memory = disk = specification, failed writes invisible to memory, disk and watchers, state after restart = "
          "acknowledged prefix (+ the in-flight operation at most), all fields and creation time intact, later operations "
          "continue from it. "
-         "The load is modelled as LoadStart / LoadItem* / LoadOK|LoadFail with a concurrent reader (ReadsSeeDisk); restarts whose first access is made by two clients at once (client A parked inside Load after 0 or 1 injected resources, client B issuing get / list / create) are driven and judged (raceread). Several clients writing at once to separate namespaces through one file and one marshaler stacking are judged per namespace after a reopen; hook traces of the driver show every rejected write from inside the collection.",
+         "The load is modelled as LoadStart / LoadItem* / LoadOK|LoadFail with a concurrent reader (ReadsSeeDisk); restarts whose first access is made by two clients at once (client A parked inside Load after 0 or 1 injected resources, client B issuing get / list / create) are driven and judged (raceread). Several clients writing at once to separate namespaces through one file and one marshaler stacking are judged per namespace after a reopen; hook traces of the driver show every rejected write from inside the collection. Crashes are also real: the script runs in a child process against a real bbolt file with real syncs and is killed with SIGKILL at random instants; faults also happen inside bbolt (database file at its maximum size).",
     note="Trusted: TLC, bbolt transaction atomicity; crashes are in-process (state dropped, file closed/re-opened) at the "
          "decorator's crash points; SIGKILL inside bbolt transactions is not driven.",
     technique="TLA+ persistence model + TLC; fault/crash-annotated replay on inmem+bbolt; TLC trace validation",
@@ -224,7 +224,7 @@ CHECKS = {
          "local watches (TraceWatch.tla: exact prefix of the committed log after the start contents - no gap, duplicate, "
          "reorder, bootstrap re-delivery - nothing missing at the end) plus: a terminal Errored after a fault is accepted only "
          "if retries are disabled, no bookmark had been seen, or the last bookmark is no longer valid. "
-         "A regression corpus (behaviours on which defects were found) is replayed in every run.",
+         "A regression corpus (behaviours on which defects were found) is replayed in every run. A real-wire stage runs the client adapter over a real gRPC connection to a server that is stopped and started again, with subscribers of every kind including ID and label selectors.",
     note="Trusted: TLC, synctest virtual time, the stream shim (harness code implementing grpc stream interfaces). Outages are "
          "shorter than the 15 min retry budget; real-wire server restarts are not driven.",
     technique="TLA+ ring/bookmark model + TLC; fault-schedule replay of the real client/server pair in virtual time; TLC trace validation",
@@ -238,7 +238,7 @@ CHECKS = {
          "every slot. TLC-simulated sequences run on the real KeyStorage with freshly generated x25519 PGP key pairs, the "
          "adversary editing the MarshalBinary output through the public protobuf message; TLC replays every step on the model "
          "and judges success/failure of every API call and equality of the recovered master key (TraceKeyStorage.tla). "
-         "The integrity tag is also stripped, truncated and zeroed.",
+         "The integrity tag is also stripped, truncated and zeroed. The serialized form is re-loaded into the same KeyStorage value in every second behaviour; refused calls (unusable public key) must have no effect.",
     note="Trusted: TLC, gopenpgp. Composite adversarial edits without a retrieval in between (e.g. renaming a slot = copy + "
          "remove, which the HMAC cannot see because slot ids are not hashed) are outside the property's single-corruption quantifier.",
     technique="TLA+ key storage model with adversary + TLC; model-based replay on the real KeyStorage; TLC trace validation",
@@ -254,7 +254,7 @@ CHECKS = {
          "conversion) - and TLC judges each site's matched set against the algebra (TraceSelector.tla); ID-regexp selectors: "
          "all sites must agree with regexp.MatchString. Filtered kind watches as exact change logs of the filtered set are "
          "model-checked (WatchLog.tla rewrite rule) and replayed/judged as in C02. "
-         "Selector.tla enumerates every ordered pair of representative terms as AND-row and as OR-row plus inverted/plain triples; the quick tier keeps all mixed-inversion pairs.",
+         "Selector.tla enumerates every ordered pair of representative terms as AND-row and as OR-row plus inverted/plain triples; the quick tier keeps all mixed-inversion pairs. Selectors are also checked across the re-establishment of remote watches (real gRPC connection, server restarted).",
     note="Trusted: TLC, Go's regexp engine, the curated string tables (10 strings).",
     technique="TLA+ selector algebra + TLC truth-table enumeration; table replay at every selector site; TLC trace validation",
     ref="5.14"),
@@ -269,7 +269,7 @@ CHECKS = {
          "the in-memory state, the gRPC stack and the runtime ResourceCache fed from a kind watch exactly as the runtime does; "
          "after every step the store contents (read independently), a watch-fed replica and every held object are logged and "
          "TLC judges that a mutation changed only the mutated handle (TraceAlias.tla). "
-         "Filtered lists (label query, ID query) are part of the programs on every stack.",
+         "Filtered lists (label query, ID query) are part of the programs on every stack. Resources with several finalizers and twin holders of one lineage (append-in-place vs copy-on-write) are part of the programs; hook traces of the in-memory collection show any change of a stored object from inside.",
     note="Trusted: TLC, the canonical rendering of resources in harness/c19. Watch-delivered event objects are never mutated "
          "(no isolation promised for them).",
     technique="TLA+ heap/copy-on-write model + TLC; program replay on three stacks; TLC trace validation",
@@ -285,7 +285,7 @@ CHECKS = {
          "text forms, and decodes every truncation and four substitutions per byte of every stacking's encoding plus a wrong "
          "key, each under recover; TLC judges the outcome classes (TraceCodec.tla). Not claimed: totality over ARBITRARY byte "
          "strings (no state machine behind it; that is fuzzing territory). "
-         "Records are independent values: every shape is encoded with one long-lived marshaler per stacking, the encodings are kept and decoded only after all later encodings were produced.",
+         "Records are independent values: every shape is encoded with one long-lived marshaler per stacking, the encodings are kept and decoded only after all later encodings were produced. Metadata strings include the scalars a text format gives a meaning of its own to (YAML null / boolean / number spellings, structural characters, blanks).",
     note="Trusted: AES-GCM, zstd, TLC. Bounded neighbourhoods only. Known finding: metadata YAML truncates sub-second timestamps.",
     technique="TLA+ codec case analysis + TLC enumeration of vectors; bounded-exhaustive tamper replay; TLC trace validation",
     ref="5.18"),
